@@ -51,7 +51,7 @@ func (f *Formatter) Format(content string) (string, error) {
 
 	// Check if this looks like a full document (starts with <!DOCTYPE or <html)
 	trimmedBody := strings.TrimSpace(body)
-	isFullDocument := strings.HasPrefix(trimmedBody, "<!DOCTYPE") || strings.HasPrefix(trimmedBody, "<html")
+	isFullDocument := hasPrefixFold(trimmedBody, "<!DOCTYPE") || hasPrefixFold(trimmedBody, "<html")
 
 	if isFullDocument {
 		return f.formatFullDocument(frontmatter, body)
@@ -69,15 +69,16 @@ func (f *Formatter) formatFullDocument(frontmatter, body string) (string, error)
 	var doctype string
 	var htmlContent string
 
-	if strings.HasPrefix(trimmedBody, "<!DOCTYPE") {
+	// The parser gets the document with its DOCTYPE (without it, it would run
+	// in quirks mode and build a different tree); the declaration itself is
+	// written back byte for byte.
+	htmlContent = trimmedBody
+	if hasPrefixFold(trimmedBody, "<!DOCTYPE") {
 		// Find the end of DOCTYPE declaration
 		endIdx := strings.Index(trimmedBody, ">")
 		if endIdx != -1 {
 			doctype = trimmedBody[:endIdx+1]
-			htmlContent = strings.TrimSpace(trimmedBody[endIdx+1:])
 		}
-	} else {
-		htmlContent = trimmedBody
 	}
 
 	// Parse HTML
@@ -108,6 +109,11 @@ func (f *Formatter) formatFullDocument(frontmatter, body string) (string, error)
 	}
 
 	return finalResult, nil
+}
+
+// hasPrefixFold reports whether s starts with prefix, ignoring ASCII case.
+func hasPrefixFold(s, prefix string) bool {
+	return len(s) >= len(prefix) && strings.EqualFold(s[:len(prefix)], prefix)
 }
 
 // fragmentContext returns an appropriate context node for html.ParseFragment
